@@ -42,8 +42,8 @@ def _run_job(args):
     try:
         m = mpi_runs.run_mpi(cfg, sched_seed=sched_seed, policy=policy)
     except Exception as e:  # noqa
-        import traceback
-        return dict(rid=rid, error=f'{type(e).__name__}: {e} {traceback.format_exc()[-400:]}')
+        from lib.errors import describe
+        return dict(rid=rid, error=describe(e, 400), cfg=cfg, sched_seed=sched_seed, policy=policy)
     return dict(rid=rid, cfg=cfg, sched_seed=sched_seed, policy=policy, mpi=m)
 
 
@@ -196,7 +196,7 @@ def run(tier, seed):
             sigs = set()
             for (cfg, ss, pol, rid), o in zip(jobs, out):
                 if 'error' in o:
-                    rep.machinery.append('MPI run failed in the harness: ' + o['error'])
+                    rep.problem('MPI run failed: ' + o['error'], dict(kind='mpi-vs-serial', cfg=cfg, sched_seed=ss, policy=pol), clause='equal.unexpected_library_error')
                     continue
                 ci = C.index(cfg)
                 diffs = compare(cfg, serial[ci], o['mpi'])
